@@ -11,6 +11,10 @@ import ClarabelProofs.Lemmas.CscBasic
 import ClarabelProofs.Lemmas.CscSort
 import ClarabelProofs.Lemmas.CscGemv
 import ClarabelProofs.Lemmas.CscEntry
+import ClarabelProofs.Lemmas.CscScale
+import ClarabelProofs.Lemmas.CscSym
+import ClarabelProofs.Lemmas.CscCat
+import ClarabelProofs.Lemmas.CscReduce
 
 namespace Clarabel.C16
 open Clarabel Csc
@@ -628,5 +632,434 @@ theorem dropzeros_spec [AddMonoid α] [DecidableEq α] (M : Csc α) (hM : Canoni
 
 /-- non-vacuity of `dropzeros_spec` -/
 example : Canonical exM.dropzeros := (dropzeros_spec exM exM_canonical).1
+
+
+/-! ### scalings (used by C10) -/
+
+/-- [F] (semiring) `scale`: same shape and pattern, canonical form kept, every dense entry
+multiplied by `c`. -/
+theorem scale_spec [Semiring α] (M : Csc α) (c : α) (hM : Canonical M) :
+    Canonical (M.scale c) ∧ (M.scale c).m = M.m ∧ (M.scale c).n = M.n ∧
+      (M.scale c).colptr = M.colptr ∧ (M.scale c).rowval = M.rowval ∧
+      ∀ i j, (M.scale c).toDense i j = M.toDense i j * c := by
+  refine ⟨canonical_of_same_pattern hM rfl rfl rfl rfl (by simp [scale]), rfl, rfl, rfl, rfl, ?_⟩
+  intro i j
+  rw [toDense_eq_sum_colVals, toDense_eq_sum_colVals,
+    col_of_vals M (M.scale c) (fun _ v => v * c) rfl rfl
+      (by rw [zipWith_const_left _ _ _ (by simpa using hM.len_eq)]; simp [scale]),
+    colVals_map_val (M.col j) (fun v => v * c), sum_map_mul_right']
+
+/-- [F] (ring) `negate`: same pattern, canonical form kept, every dense entry negated. -/
+theorem negate_spec [Ring α] (M : Csc α) (hM : Canonical M) :
+    Canonical M.negate ∧ M.negate.m = M.m ∧ M.negate.n = M.n ∧
+      M.negate.colptr = M.colptr ∧ M.negate.rowval = M.rowval ∧
+      ∀ i j, M.negate.toDense i j = - M.toDense i j := by
+  refine ⟨canonical_of_same_pattern hM rfl rfl rfl rfl (by simp [negate]), rfl, rfl, rfl, rfl, ?_⟩
+  intro i j
+  rw [toDense_eq_sum_colVals, toDense_eq_sum_colVals,
+    col_of_vals M M.negate (fun _ v => -v) rfl rfl
+      (by rw [zipWith_const_left _ _ _ (by simpa using hM.len_eq)]; simp [negate]),
+    colVals_map_val (M.col j) (fun v => -v), sum_map_neg']
+
+/-- [F] (semiring) `lscale` = `Diagonal(l)·M`: with `l.len = m` no panic, same pattern,
+canonical, entry `(i,j)` multiplied by `l i`. -/
+theorem lscale_spec [Semiring α] (M : Csc α) (l : Array α) (hM : Canonical M) (hl : l.size = M.m) :
+    ∃ R, M.lscale l = .ok R ∧ Canonical R ∧ R.m = M.m ∧ R.n = M.n ∧
+      R.colptr = M.colptr ∧ R.rowval = M.rowval ∧
+      ∀ i j, R.toDense i j = M.toDense i j * l.getD i 0 := by
+  have hmap := mapM_eq_ok (M.nzval.toList.zip M.rowval.toList)
+    (fun (p : α × Nat) => do
+      let lr ← getE l p.2 "l[row]"
+      pure (p.1 * lr))
+    (fun p => p.1 * l.getD p.2 0)
+    (by
+      intro p hp
+      have : p.2 < l.size := by rw [hl]; exact hM.rows_bound _ (List.of_mem_zip hp).2
+      rw [getE_eq_ok l p.2 0 _ this]; rfl)
+  have hlen : ((M.nzval.toList.zip M.rowval.toList).map (fun p => p.1 * l.getD p.2 0)).length
+      = M.nzval.toList.length := by
+    simp [hM.len_eq]
+  refine ⟨{ M with nzval := ((M.nzval.toList.zip M.rowval.toList).map
+    (fun p => p.1 * l.getD p.2 0)).toArray }, ?_, ?_, rfl, rfl, rfl, rfl, ?_⟩
+  · unfold lscale
+    rw [hmap]
+    simp only [bind, Except.bind, pure, Except.pure]
+    rw [hlen, List.drop_length, List.append_nil]
+  · exact canonical_of_same_pattern hM rfl rfl rfl rfl (by simpa using hlen)
+  · intro i j
+    have hz := map_zip_eq_zipWith_swap M.nzval.toList M.rowval.toList (fun v r => v * l.getD r 0)
+    have hc := col_of_vals M { M with nzval := ((M.nzval.toList.zip M.rowval.toList).map
+        (fun p => p.1 * l.getD p.2 0)).toArray } (fun r v => v * l.getD r 0) rfl rfl
+      (by simpa using hz) j
+    rw [toDense_eq_sum_colVals, toDense_eq_sum_colVals, hc,
+      colVals_map_rowval (M.col j) (fun r v => v * l.getD r 0), sum_map_mul_right']
+
+/-- [F] (semiring) `rscale` = `M·Diagonal(r)`: with `r.len = n` no panic, canonical, same
+shape, entry `(i,j)` multiplied by `r j`. -/
+theorem rscale_spec [Semiring α] (M : Csc α) (r : Array α) (hM : Canonical M) (hr : r.size = M.n) :
+    ∃ R, M.rscale r = .ok R ∧ Canonical R ∧ R.m = M.m ∧ R.n = M.n ∧
+      ∀ i j, j < M.n → R.toDense i j = M.toDense i j * r.getD j 0 := by
+  have hmap := mapM_eq_ok (List.range M.n)
+    (fun i => do
+      let ri ← getE r i "r[i]"
+      pure ((M.col i).map (fun e => (e.1, e.2 * ri))))
+    (fun i => (M.col i).map (fun e => (e.1, e.2 * r.getD i 0)))
+    (by
+      intro i hi
+      rw [getE_eq_ok r i 0 _ (by rw [hr]; exact List.mem_range.mp hi)]; rfl)
+  refine ⟨ofCols M.m M.n ((List.range M.n).map
+    (fun i => (M.col i).map (fun e => (e.1, e.2 * r.getD i 0)))), ?_, ?_, rfl, rfl, ?_⟩
+  · unfold rscale
+    rw [nzvalMatchesColptr_of_canonical hM, hmap]
+    rfl
+  · apply canonical_ofCols
+    · simp
+    · intro c hc
+      simp only [List.mem_map, List.mem_range] at hc
+      obtain ⟨j, hj, rfl⟩ := hc
+      exact colOK_map_val M.m (M.col j) (fun _ v => v * r.getD j 0) (colOK_of_canonical hM j hj)
+  · intro i j hj
+    rw [toDense_eq_sum_colVals, toDense_eq_sum_colVals, col_ofCols _ _ _ j (by simpa using hj)]
+    simp only [List.getElem_map, List.getElem_range]
+    rw [colVals_map_val (M.col j) (fun v => v * r.getD j 0), sum_map_mul_right']
+
+/-- [F] (commutative ring) `lrscale` = `Diagonal(l)·M·Diagonal(r)`: with `l.len = m`,
+`r.len = n` no panic, canonical, same shape, entry `(i,j)` becomes `l i · M i j · r j`. -/
+theorem lrscale_spec [CommRing α] (M : Csc α) (l r : Array α) (hM : Canonical M)
+    (hl : l.size = M.m) (hr : r.size = M.n) :
+    ∃ R, M.lrscale l r = .ok R ∧ Canonical R ∧ R.m = M.m ∧ R.n = M.n ∧
+      ∀ i j, j < M.n → R.toDense i j = l.getD i 0 * M.toDense i j * r.getD j 0 := by
+  have hmap := mapM_eq_ok (List.range M.n) (lrscaleCol M l r)
+    (fun i => (M.col i).map (fun e => (e.1, e.2 * (l.getD e.1 0 * r.getD i 0))))
+    (by
+      intro i hi
+      have hi' : i < r.size := by rw [hr]; exact List.mem_range.mp hi
+      unfold lrscaleCol
+      rw [dif_pos hi']
+      apply mapM_eq_ok
+      intro e he
+      have : e.1 < l.size := by
+        rw [hl]; exact (colOK_of_canonical hM i (List.mem_range.mp hi)).2 e he
+      rw [getE_eq_ok l e.1 0 _ this]
+      simp [Array.getD_eq_getD_getElem?, Array.getElem?_eq_getElem hi'])
+  refine ⟨ofCols M.m M.n ((List.range M.n).map
+    (fun i => (M.col i).map (fun e => (e.1, e.2 * (l.getD e.1 0 * r.getD i 0))))), ?_, ?_, rfl, rfl, ?_⟩
+  · unfold lrscale
+    rw [nzvalMatchesColptr_of_canonical hM]
+    have : ¬ r.size > M.n := by omega
+    simp only [this, ↓reduceIte, hmap]
+    rfl
+  · apply canonical_ofCols
+    · simp
+    · intro c hc
+      simp only [List.mem_map, List.mem_range] at hc
+      obtain ⟨j, hj, rfl⟩ := hc
+      exact colOK_map_val M.m (M.col j) (fun rr v => v * (l.getD rr 0 * r.getD j 0))
+        (colOK_of_canonical hM j hj)
+  · intro i j hj
+    rw [toDense_eq_sum_colVals, toDense_eq_sum_colVals, col_ofCols _ _ _ j (by simpa using hj)]
+    simp only [List.getElem_map, List.getElem_range]
+    rw [colVals_map_rowval (M.col j) (fun rr v => v * (l.getD rr 0 * r.getD j 0)),
+      sum_map_mul_right']
+    simp only [mul_comm, mul_left_comm, mul_assoc]
+
+/-- non-vacuity of the scaling theorems -/
+example : ∃ R, exM.lrscale #[1, 2, 3] #[4, 5, 6] = .ok R ∧ Canonical R :=
+  let ⟨R, h1, h2, _⟩ := lrscale_spec exM #[1, 2, 3] #[4, 5, 6] exM_canonical rfl rfl
+  ⟨R, h1, h2⟩
+example : ∃ R, exM.lscale #[1, 2, 3] = .ok R ∧ Canonical R :=
+  let ⟨R, h1, h2, _⟩ := lscale_spec exM #[1, 2, 3] exM_canonical rfl
+  ⟨R, h1, h2⟩
+example : ∃ R, exM.rscale #[1, 2, 3] = .ok R ∧ Canonical R :=
+  let ⟨R, h1, h2, _⟩ := rscale_spec exM #[1, 2, 3] exM_canonical rfl
+  ⟨R, h1, h2⟩
+example : Canonical (exM.scale 2) ∧ Canonical exM.negate :=
+  ⟨(scale_spec exM 2 exM_canonical).1, (negate_spec exM exM_canonical).1⟩
+
+
+/-! ### symv -/
+
+/-- [F] (commutative ring) `symv` on a canonical square matrix with vectors of length `n`
+does not panic and returns `b·y + a·(A + Aᵀ − diag A)·x`: the matrix applied is
+`S i j = A i i` on the diagonal and `A i j + A j i` off it — for an upper-triangular `A`
+this is the symmetric matrix whose upper triangle `A` holds. -/
+theorem symv_spec [CommRing α] (A : Csc α) (y x : Array α) (a b : α)
+    (hA : Canonical A) (hsq : A.m = A.n) (hx : x.size = A.n) (hy : y.size = A.n) :
+    ∃ y', A.symv y x a b = .ok y' ∧ y'.size = A.n ∧
+      ∀ i, i < A.n → y'[i]? = some (b * y.getD i 0 + a * ∑ j ∈ Finset.range A.n,
+        (if i = j then A.toDense i i else A.toDense i j + A.toDense j i) * x.getD j 0) := by
+  have hsz : (Vec.scale y b).size = A.n := by simp [Vec.scale, hy]
+  obtain ⟨y', h1, h2, h3⟩ := scatter_spec (fun yi t => yi + t) (Vec.scale y b)
+    (symvTerms A x a).flatten.flatten
+    (fun t ht => by rw [hsz]; exact symvTerms_bound A x a hA hsq t ht)
+  refine ⟨y', ?_, by rw [h2, hsz], fun i hi => ?_⟩
+  · unfold symv
+    simp only [hx, hsz, hsq, bne_self_eq_false, Bool.false_eq_true, ↓reduceIte,
+      symv_mapM_eq A x a hA hsq hx]
+    exact h1
+  · have : (Vec.scale y b)[i]? = some (b * y.getD i 0) := by
+      have hi' : i < y.size := by omega
+      simp [Vec.scale, Array.getD_eq_getD_getElem?, Array.getElem?_eq_getElem hi', mul_comm]
+    rw [h3 i (by omega), this, Option.map_some, foldl_add_eq, symvTerms_sum A x a hA hsq i hi]
+    simp only [toDense_eq_sum_colVals]
+
+/-- non-vacuity of `symv_spec` (upper triangle of `exM`) -/
+example : ∃ y', (⟨3, 3, #[0, 1, 2, 4], #[0, 1, 0, 2], #[1, 2, 4, 5]⟩ : Csc Int).symv
+    #[1, 1, 1] #[1, 2, 3] 2 (-1) = .ok y' ∧ y'.size = 3 :=
+  let ⟨y', h1, h2, _⟩ := symv_spec (⟨3, 3, #[0, 1, 2, 4], #[0, 1, 0, 2], #[1, 2, 4, 5]⟩ : Csc Int)
+    #[1, 1, 1] #[1, 2, 3] 2 (-1) ((check_format_iff _).mp (by rfl)) rfl rfl rfl
+  ⟨y', h1, h2⟩
+
+
+/-! ### quad_form -/
+
+/-- [F] (commutative ring) `quad_form` on a canonical upper-triangular matrix with vectors
+of length `n` does not panic and returns `yᵀ·S·x`, `S = A + Aᵀ − diag A` the symmetric
+matrix whose upper triangle `A` holds. -/
+theorem quadForm_spec [CommRing α] [DecidableEq α] (M : Csc α) (y x : Array α)
+    (hM : Canonical M) (hsq : M.m = M.n) (htri : M.isTriu = true)
+    (hx : x.size = M.n) (hy : y.size = M.n) :
+    M.quadForm y x = .ok (∑ i ∈ Finset.range M.n, ∑ j ∈ Finset.range M.n,
+      y.getD i 0 * (if i = j then M.toDense i i else M.toDense i j + M.toDense j i) * x.getD j 0) := by
+  have hle : ∀ j, j < M.n → ∀ e ∈ M.col j, e.1 ≤ j := by
+    intro j hj e he
+    unfold isTriu at htri
+    simp only [List.all_eq_true, List.mem_range, decide_eq_true_eq] at htri
+    have := htri j hj e.1
+    rw [colRows_eq_map_col M hM.len_eq] at this
+    exact this (List.mem_map_of_mem he)
+  unfold quadForm
+  simp only [hsq, hx, hy, hM.colptr_size, hM.len_eq, bne_self_eq_false, Bool.false_eq_true,
+    ↓reduceIte]
+  by_cases hn : M.n = 0
+  · simp [hn]; rfl
+  · have hn' : (M.n == 0) = false := by simpa using hn
+    simp only [hn', Bool.false_eq_true, ↓reduceIte]
+    rw [foldlM_add_eq (List.range M.n) (quadCol M y x)
+      (fun j => ((M.col j).map (fun e => e.2 *
+        quadW (fun k => x.getD k 0) (fun k => y.getD k 0) j e.1)).sum)
+      (fun out j hj => quadCol_eq M y x out j (by rw [hx]; exact List.mem_range.mp hj)
+        (by rw [hx, hy]) (hle j (List.mem_range.mp hj)))]
+    congr 1
+    rw [zero_add, list_sum_range_eq, ← quad_sum_eq M.n (fun i j => M.toDense i j)
+      (fun k => x.getD k 0) (fun k => y.getD k 0)]
+    apply Finset.sum_congr rfl
+    intro j hj
+    have hj' := Finset.mem_range.mp hj
+    rw [sum_col_mul_eq (M.col j) (fun r => quadW (fun k => x.getD k 0) (fun k => y.getD k 0) j r) M.n
+      (fun e he => by have := (colOK_of_canonical hM j hj').2 e he; omega)]
+    apply Finset.sum_congr rfl
+    intro i _
+    rw [toDense_eq_sum_colVals]
+
+/-- non-vacuity of `quadForm_spec` -/
+example : ∃ v, (⟨3, 3, #[0, 1, 2, 4], #[0, 1, 0, 2], #[1, 2, 4, 5]⟩ : Csc Int).quadForm
+    #[1, 1, 1] #[1, 2, 3] = .ok v :=
+  ⟨_, quadForm_spec (⟨3, 3, #[0, 1, 2, 4], #[0, 1, 0, 2], #[1, 2, 4, 5]⟩ : Csc Int)
+    #[1, 1, 1] #[1, 2, 3] ((check_format_iff _).mp (by rfl)) rfl (by rfl) rfl rfl⟩
+
+
+/-! ### hcat / vcat / blockdiag -/
+
+/-- [S] `hcat` fails (with `IncompatibleDimension`) exactly when the row counts differ. -/
+theorem hcat_error_iff (A B : Csc α) :
+    hcat A B = .error .incompatibleDimension ↔ A.m ≠ B.m := by
+  by_cases h : A.m = B.m
+  · simp [hcat, hvcat, hvcatDimCheck, rowOffsets, h, List.range_succ]
+  · have h' : ¬ B.m = A.m := fun e => h e.symm
+    simp [hcat, hvcat, hvcatDimCheck, rowOffsets, h, h', List.range_succ]
+
+/-- [S] `hcat A B = [A B]`: canonical when both blocks are, `m × (nA + nB)`, the first
+`nA` columns hold the stored values of `A`, the next `nB` those of `B` (any scalar type). -/
+theorem hcat_spec [Add α] [OfNat α 0] (A B : Csc α) (h : A.m = B.m) :
+    ∃ R, hcat A B = .ok R ∧ R.m = A.m ∧ R.n = A.n + B.n ∧
+      (Canonical A → Canonical B → Canonical R) ∧
+      (∀ i j, j < A.n → R.toDense i j = A.toDense i j) ∧
+      (∀ i j, j < B.n → R.toDense i (A.n + j) = B.toDense i j) := by
+  refine ⟨ofCols A.m (A.n + B.n) ((List.range A.n).map (fun c => shiftRows 0 (A.col c)) ++
+    (List.range B.n).map (fun c => shiftRows 0 (B.col c))), ?_, rfl, rfl, ?_, ?_, ?_⟩
+  · simp [hcat, hvcat, hvcatDimCheck, rowOffsets, h, List.range_succ]
+  · intro hA hB
+    apply canonical_ofCols
+    · simp
+    · intro c hc
+      simp only [List.mem_append, List.mem_map, List.mem_range] at hc
+      rcases hc with ⟨j, hj, rfl⟩ | ⟨j, hj, rfl⟩
+      · rw [shiftRows_zero]; exact colOK_of_canonical hA j hj
+      · rw [shiftRows_zero, h]; exact colOK_of_canonical hB j hj
+  · intro i j hj
+    rw [toDense_eq_foldl_colVals, toDense_eq_foldl_colVals,
+      col_ofCols _ _ _ j (by simp; omega), List.getElem_append_left (by simpa using hj)]
+    simp [shiftRows_zero]
+  · intro i j hj
+    rw [toDense_eq_foldl_colVals, toDense_eq_foldl_colVals,
+      col_ofCols _ _ _ (A.n + j) (by simp; omega), List.getElem_append_right (by simp)]
+    simp [shiftRows_zero]
+
+/-- [S] `vcat` fails exactly when the column counts differ. -/
+theorem vcat_error_iff (A B : Csc α) :
+    vcat A B = .error .incompatibleDimension ↔ A.n ≠ B.n := by
+  by_cases h : A.n = B.n
+  · simp [vcat, hvcat, hvcatDimCheck, rowOffsets, h, List.range_succ]
+  · have h' : ¬ B.n = A.n := fun e => h e.symm
+    simp [vcat, hvcat, hvcatDimCheck, rowOffsets, h, h', List.range_succ]
+
+/-- [S] `vcat A B = [A; B]`: `(mA + mB) × n`, canonical when both blocks are; rows
+`< mA` hold the stored values of `A`, row `mA + i` those of row `i` of `B` (for `A`'s
+row indices in range). -/
+theorem vcat_spec [Add α] [OfNat α 0] (A B : Csc α) (h : A.n = B.n) :
+    ∃ R, vcat A B = .ok R ∧ R.m = A.m + B.m ∧ R.n = A.n ∧
+      (Canonical A → Canonical B → Canonical R) ∧
+      (∀ i j, i < A.m → j < A.n → R.toDense i j = A.toDense i j) ∧
+      (Canonical A → ∀ i j, j < A.n → R.toDense (A.m + i) j = B.toDense i j) := by
+  refine ⟨ofCols (A.m + B.m) A.n ((List.range A.n).map
+    (fun c => shiftRows 0 (A.col c) ++ shiftRows A.m (B.col c))), ?_, rfl, rfl, ?_, ?_, ?_⟩
+  · simp [vcat, hvcat, hvcatDimCheck, rowOffsets, h, List.range_succ]
+  · intro hA hB
+    apply canonical_ofCols
+    · simp
+    · intro c hc
+      simp only [List.mem_map, List.mem_range] at hc
+      obtain ⟨j, hj, rfl⟩ := hc
+      rw [shiftRows_zero]
+      exact colOK_append_shift A.m B.m _ _ (colOK_of_canonical hA j hj)
+        (colOK_of_canonical hB j (by omega))
+  · intro i j hi hj
+    rw [toDense_eq_foldl_colVals, toDense_eq_foldl_colVals, col_ofCols _ _ _ j (by simpa using hj)]
+    simp only [List.getElem_map, List.getElem_range, shiftRows_zero, colVals_append,
+      colVals_shiftRows]
+    have : ¬ A.m ≤ i := by omega
+    simp [this]
+  · intro hA i j hj
+    rw [toDense_eq_foldl_colVals, toDense_eq_foldl_colVals, col_ofCols _ _ _ j (by simpa using hj)]
+    simp only [List.getElem_map, List.getElem_range, shiftRows_zero, colVals_append,
+      colVals_shiftRows]
+    have h1 : colVals (A.col j) (A.m + i) = [] := by
+      apply colVals_eq_nil_of_not_mem
+      intro e he
+      have := (colOK_of_canonical hA j hj).2 e he
+      omega
+    simp [h1]
+
+/-- [S] `blockdiag` fails exactly on the empty list. -/
+theorem blockdiag_error_iff (mats : List (Csc α)) :
+    blockdiag mats = .error .incompatibleDimension ↔ mats = [] := by
+  unfold blockdiag
+  cases mats with
+  | nil => simp
+  | cons a t => simp
+
+/-- non-vacuity of the concatenation theorems -/
+example : ∃ R, hcat exM exM = .ok R ∧ Canonical R :=
+  let ⟨R, h1, _, _, h2, _⟩ := hcat_spec exM exM rfl
+  ⟨R, h1, h2 exM_canonical exM_canonical⟩
+example : ∃ R, vcat exM exM = .ok R ∧ Canonical R :=
+  let ⟨R, h1, _, _, h2, _⟩ := vcat_spec exM exM rfl
+  ⟨R, h1, h2 exM_canonical exM_canonical⟩
+
+
+/-- [S] `blockdiag` of a non-empty list: shape `Σ m × Σ n`, canonical when every block
+is; column `c` of block `k` sits at column `Σ_{k'<k} n_k' + c` and holds the stored values
+of that block shifted down by `Σ_{k'<k} m_k'`, nothing above them (any scalar type; with
+canonical blocks nothing below either, since their rows are `< m_k`). -/
+theorem blockdiag_spec [Add α] [OfNat α 0] (mats : List (Csc α)) (hne : mats ≠ []) :
+    ∃ R, blockdiag mats = .ok R ∧ R.m = (mats.map (·.m)).sum ∧ R.n = (mats.map (·.n)).sum ∧
+      ((∀ M ∈ mats, Canonical M) → Canonical R) ∧
+      ∀ k (hk : k < mats.length) c, c < mats[k].n → ∀ i,
+        R.toDense i (((mats.take k).map (·.n)).sum + c) =
+          if ((mats.take k).map (·.m)).sum ≤ i
+          then mats[k].toDense (i - ((mats.take k).map (·.m)).sum) c else 0 := by
+  have hlen : (bdBlocks mats).flatten.length = (mats.map (·.n)).sum := by
+    rw [List.length_flatten, bdBlocks_map_length]
+  refine ⟨ofCols (mats.map (·.m)).sum (mats.map (·.n)).sum (bdBlocks mats).flatten,
+    ?_, rfl, rfl, ?_, ?_⟩
+  · unfold blockdiag
+    have : mats.isEmpty = false := by
+      cases mats with
+      | nil => exact absurd rfl hne
+      | cons a t => rfl
+    simp only [this, Bool.false_eq_true, ↓reduceIte]
+    simp only [foldl_add_eq_sum ((mats.map (·.m))), foldl_add_eq_sum ((mats.map (·.n)))]
+    rfl
+  · intro hall
+    apply canonical_ofCols _ _ _ hlen
+    intro col hcol
+    rw [List.mem_flatten] at hcol
+    obtain ⟨blk, hblk, hcol⟩ := hcol
+    obtain ⟨k, hk, rfl⟩ := List.mem_iff_getElem.mp hblk
+    have hk' : k < mats.length := by rw [bdBlocks_length] at hk; exact hk
+    rw [bdBlocks_getElem mats k hk'] at hcol
+    simp only [List.mem_map, List.mem_range] at hcol
+    obtain ⟨c, hc, rfl⟩ := hcol
+    have hM := hall mats[k] (List.getElem_mem _)
+    refine colOK_mono _ _ _ (colOK_shiftRows _ _ _ (colOK_of_canonical hM c hc)) ?_
+    have := take_sum_add_le (mats.map (·.m)) k (by simpa using hk')
+    simp only [List.getElem_map, List.map_take] at this ⊢
+    omega
+  · intro k hk c hc i
+    have hk2 : k < (bdBlocks mats).length := by rw [bdBlocks_length]; exact hk
+    have hc2 : c < (bdBlocks mats)[k].length := by rw [bdBlocks_getElem mats k hk]; simpa using hc
+    have hget := getElem?_flatten_offset (bdBlocks mats) k c hk2 hc2
+    rw [List.map_take, bdBlocks_map_length, ← List.map_take] at hget
+    obtain ⟨hidx, hval⟩ := List.getElem?_eq_some_iff.mp hget
+    rw [toDense_eq_foldl_colVals, col_ofCols _ _ _ _ hidx, hval]
+    simp only [bdBlocks_getElem mats k hk, List.getElem_map, List.getElem_range, colVals_shiftRows]
+    split_ifs
+    · rw [toDense_eq_foldl_colVals]
+    · rfl
+
+/-- non-vacuity of `blockdiag_spec` -/
+example : ∃ R, blockdiag [exM, exM] = .ok R ∧ Canonical R ∧ R.m = 6 :=
+  let ⟨R, h1, h2, _, h3, _⟩ := blockdiag_spec [exM, exM] (by simp)
+  ⟨R, h1, h3 (by intro M hM; simp at hM; rw [hM]; exact exM_canonical), h2⟩
+
+
+/-! ### row / column sums -/
+
+/-- [F] (additive commutative monoid) `col_sums`: slot `j` is `Σ_i A i j`. -/
+theorem colSums_spec [AddCommMonoid α] (M : Csc α) (sums : Array α) (hM : Canonical M)
+    (hs : sums.size = M.n) :
+    ∃ v, M.colSums sums = .ok v ∧ v.size = M.n ∧
+      ∀ j, j < M.n → v[j]? = some (∑ i ∈ Finset.range M.m, M.toDense i j) := by
+  refine ⟨_, by unfold colSums; simp only [hs, bne_self_eq_false, Bool.false_eq_true, ↓reduceIte]; rfl,
+    by simp, fun j hj => ?_⟩
+  simp only [List.getElem?_toArray, List.getElem?_map, List.getElem?_range hj, Option.map_some]
+  rw [foldl_add_snd, zero_add, sum_col_eq (M.col j) M.m (colOK_of_canonical hM j hj).2]
+  congr 1
+  apply Finset.sum_congr rfl
+  intro i _
+  rw [toDense_eq_sum_colVals]
+
+/-- [F] (additive commutative monoid) `row_sums` on a canonical matrix whose `colptr`
+starts at 0: slot `i` is `Σ_j A i j`, whatever the incoming content. -/
+theorem rowSums_spec [AddCommMonoid α] (M : Csc α) (sums : Array α) (hM : Canonical M)
+    (h0 : M.colptr.getD 0 0 = 0) (hs : sums.size = M.m) :
+    ∃ v, M.rowSums sums = .ok v ∧ v.size = M.m ∧
+      ∀ i, i < M.m → v[i]? = some (∑ j ∈ Finset.range M.n, M.toDense i j) := by
+  have hb : ∀ e ∈ M.entries, e.1 < (sums.map (fun _ => (0 : α))).size := by
+    intro e he
+    simp only [Array.size_map, hs]
+    exact hM.rows_bound _ (List.of_mem_zip he).1
+  obtain ⟨v, h1, h2, h3⟩ := scatter_spec (fun s v => s + v) (sums.map (fun _ => (0 : α))) M.entries hb
+  refine ⟨v, by unfold rowSums; simp only [hs, bne_self_eq_false, Bool.false_eq_true, ↓reduceIte]; exact h1,
+    by simpa [hs] using h2, fun i hi => ?_⟩
+  rw [h3 i (by simpa [hs] using hi)]
+  have hi' : i < sums.size := by omega
+  simp only [Array.getElem?_map, Array.getElem?_eq_getElem hi', Option.map_some]
+  rw [foldl_add_eq, zero_add, entries_eq_flatten_cols M hM h0, colVals_flatten, List.sum_flatten]
+  unfold cols
+  rw [List.map_map, List.map_map, list_sum_range_eq]
+  congr 1
+  apply Finset.sum_congr rfl
+  intro j _
+  simp only [Function.comp, toDense_eq_sum_colVals]
+
+/-- non-vacuity of the sum theorems -/
+example : ∃ v, exM.colSums #[0, 0, 0] = .ok v ∧ v.size = 3 :=
+  let ⟨v, h1, h2, _⟩ := colSums_spec exM #[0, 0, 0] exM_canonical rfl
+  ⟨v, h1, h2⟩
+example : ∃ v, exM.rowSums #[7, 7, 7] = .ok v ∧ v.size = 3 :=
+  let ⟨v, h1, h2, _⟩ := rowSums_spec exM #[7, 7, 7] exM_canonical rfl rfl
+  ⟨v, h1, h2⟩
 
 end Clarabel.C16
